@@ -19,11 +19,12 @@ package main
 //   mode) / all positional arguments (-e mode) — checked through the scripts'
 //   own output, the library driver being handed the expected args.
 //
-// Not judged (the statement is silent): the text of the diagnostic line (only
-// counted: does it contain the library's error text), standard error, the
-// dynamic type of `args` (scripts never ask for it), error messages that span
-// several lines (excluded while c18PendingFix_multiLineDiagnostic), interactive
-// mode.
+// Not judged (the statement is silent): the wording around the error text in the
+// diagnostic line (phases fixed/gen/diag-env only count whether the line contains
+// the library's error text; phase bytes-cwd-cr, c18_r6.go, demands that it spells
+// it in the command's one-line form), standard error, the dynamic type of `args`
+// (scripts never ask for it), error messages that span several lines (excluded
+// while c18PendingFix_multiLineDiagnostic), interactive mode.
 
 import (
 	"bytes"
@@ -220,6 +221,10 @@ func c18Judge(lib c18Lib, cli c18Proc) (what, detail string) {
 			d := got[len(lib.Stdout):]
 			if !c18OneLine(d) {
 				what = "diagnostic-not-exactly-one-line"
+				if strings.HasSuffix(d, "\n") && strings.Count(d, "\n") == 1 {
+					// one line feed, at the end, but a carriage return inside the text
+					what = "diagnostic-line-holds-carriage-return"
+				}
 			} else if strings.TrimSpace(d) == "" {
 				what = "diagnostic-line-blank"
 			}
@@ -246,9 +251,42 @@ func c18Judge(lib c18Lib, cli c18Proc) (what, detail string) {
 
 var c18AddrRe = regexp.MustCompile(`0x[0-9a-f]{5,}`)
 
-// exactly one line: some text without a newline, then one newline
+// exactly one line: some text without a line break, then one newline. A
+// carriage return is a line break as much as a line feed is (a terminal goes
+// back to column one and the rest overwrites the start of the line; every
+// universal-newline reader splits there), so the text holds neither. The
+// statement does not say how the line is terminated: "\n" and "\r\n" are both
+// accepted. Other characters some readers also break at (VT, FF, NEL, LS, PS)
+// are not judged.
 func c18OneLine(d string) bool {
-	return strings.HasSuffix(d, "\n") && strings.Count(d, "\n") == 1
+	if !strings.HasSuffix(d, "\n") || strings.Count(d, "\n") != 1 {
+		return false
+	}
+	text := strings.TrimSuffix(strings.TrimSuffix(d, "\n"), "\r")
+	return !strings.Contains(text, "\r")
+}
+
+// c18DiagEscape: the one-line form of an error text the command documents
+// (anko.go oneLine: a line feed is written \n, a carriage return \r, everything
+// else as it is).
+func c18DiagEscape(s string) string {
+	return strings.NewReplacer("\n", "\\n", "\r", "\\r").Replace(s)
+}
+
+// c18JudgeSpell (only where c18Ctx.spell is set, after c18Judge found the shape
+// right): the diagnostic line reports the error the library returned, so it
+// contains that error's text in the one-line form. What else the line says
+// (a prefix such as "Execute error:") is not judged.
+func c18JudgeSpell(lib c18Lib, cli c18Proc) (what, detail string) {
+	if lib.Class == "ok" || !strings.HasPrefix(cli.Stdout, lib.Stdout) {
+		return
+	}
+	d := cli.Stdout[len(lib.Stdout):]
+	if want := c18DiagEscape(lib.ErrText); !strings.Contains(d, want) {
+		what = "diagnostic-does-not-spell-error-text"
+		detail = fmt.Sprintf("library(%s) err=%q, one-line form %q; CLI diagnostic=%q exit=%d", lib.Class, c18Clip(lib.ErrText), c18Clip(want), c18Clip(d), cli.Exit)
+	}
+	return
 }
 
 // ---------------------------------------------------------------------------
@@ -1180,7 +1218,10 @@ type c18Ctx struct {
 	c    *wk.Case
 	anko string
 	self string
-	dir  string
+	dir  string // working directory of every process started (CLI and library driver)
+	// phase bytes-cwd-cr (c18_r6.go)
+	spell bool   // also judge the text of the diagnostic line (c18JudgeSpell)
+	place string // name of the (working directory, script path form) pair, "" = script in the working directory
 }
 
 func c18Setup(c *wk.Case) (*c18Ctx, func()) {
@@ -1234,6 +1275,17 @@ func c18SameArgs(a, b []string) bool {
 func (x *c18Ctx) check(mode string, sc *c18Script, argv, scriptArgs []string, lib *c18Lib) {
 	c := x.c
 	input := map[string]interface{}{"mode": mode, "src": sc.Src, "argv": argv, "want_args": scriptArgs}
+	if x.place != "" {
+		input["place"] = x.place
+		input["cwd"] = x.dir
+	}
+	judge := func(l c18Lib, p c18Proc) (string, string) {
+		w, d := c18Judge(l, p)
+		if w == "" && x.spell {
+			w, d = c18JudgeSpell(l, p)
+		}
+		return w, d
+	}
 	if lib.Class == "died" {
 		c.Inconclusive("library-driver-died", fmt.Sprintf("exit=%d timeout=%v capped=%v start=%q stderr=%q", lib.Proc.Exit, lib.Proc.TimedOut, lib.Proc.Capped, lib.Proc.StartErr, c18Clip(lib.Proc.Stderr)), input)
 		return
@@ -1263,7 +1315,7 @@ func (x *c18Ctx) check(mode string, sc *c18Script, argv, scriptArgs []string, li
 		return
 	}
 	nontrivial := lib.Stdout != "" || lib.Class != "ok"
-	c.Eval(c18Key(mode, sc.Src, scriptArgs), nontrivial)
+	c.Eval(c18Key(mode+x.place, sc.Src, scriptArgs), nontrivial)
 	c.Events(1 + strings.Count(cli.Stdout, "\n"))
 	c.Tag("mode:"+mode, "class:"+lib.Class, "mode-class:"+mode+":"+lib.Class, "nargs:"+strconv.Itoa(len(scriptArgs)))
 	if lib.Stdout != "" && lib.Class != "ok" {
@@ -1286,7 +1338,7 @@ func (x *c18Ctx) check(mode string, sc *c18Script, argv, scriptArgs []string, li
 		c.Sample(map[string]interface{}{"mode": mode, "src": c18Clip(sc.Src), "argv_tail": scriptArgs, "library_class": lib.Class, "library_stdout": c18Clip(lib.Stdout),
 			"library_err": lib.ErrText, "cli_stdout": c18Clip(cli.Stdout), "cli_exit": cli.Exit})
 	}
-	what, detail := c18Judge(*lib, cli)
+	what, detail := judge(*lib, cli)
 	if what == "" {
 		return
 	}
@@ -1298,7 +1350,7 @@ func (x *c18Ctx) check(mode string, sc *c18Script, argv, scriptArgs []string, li
 		return
 	}
 	cli2 := c18Exec(x.anko, argv, x.dir, nil)
-	if what2, _ := c18Judge(lib2, cli2); what2 != what {
+	if what2, _ := judge(lib2, cli2); what2 != what {
 		c.Inconclusive("cli-observation-not-reproducible", fmt.Sprintf("first run: %s (%s); second run: %q", what, detail, what2), input)
 		return
 	}
@@ -1408,17 +1460,26 @@ func init() {
 			if tier == "thorough" {
 				nR5 = len(c18FixedR5) + 8000
 			}
+			nR6 := len(c18FixedR6) + 120
+			chunkR6 := 16
+			if tier == "thorough" {
+				nR6 = len(c18FixedR6) + 9000
+				chunkR6 = 250
+			}
 			return fw.Plan{
 				Level: "exploration",
 				Rule: "every script is run three ways: by the library driver (vm.Execute in a child of the worker, environment = args + core.Import + linked packages, stdout captured), by the built anko executable as a file argument with 0-3 trailing arguments, and by the executable with -e (same source, same positional arguments). " +
 					"phase fixed: hand-written scripts (each printer, layouts, parse/lexer errors before and after prints, run errors at top level / in a function / in a loop / after a partial line, every safe package, big outputs, args observers x 8 argument vectors incl. flag-like words after the file name) and unreadable paths (missing, directory, empty path) with and without trailing arguments. " +
 					"phase gen: PRNG template programs (prints through println/print/printf, control flow, functions, try/catch, maps, modules, imports from the safe list, args observers): 40% unchanged, 28% with garbage inserted at / source truncated at a PRNG-chosen token, 28% with a failing statement inserted after k top-level statements, 4% unreadable paths. " +
 					"phase diag-env (c18_r5.go): hand-written scripts first, then PRNG scripts of two families, each placed at top level / in a function / a loop / a closure / a try whose catch prints or throws again / a try with finally / after a partial line: (A) failing scripts whose error text carries script data with a '%' in it (a trailing %, %d, %s, %!, %[1]d, ...; thrown strings and Go error values, import/load of missing names, Go errors and panics quoting an operand, an argument of the command line), (B) scripts that use or ask defined() about a name no scope defines: names of bundled packages without an import (strings, os, fmt, json, ...), names of the command's own source (e, file, version, ...), in expression, call, member, assignment, loop, switch and type positions, next to scripts that import the package under that name. " +
+					"phase bytes-cwd-cr (c18_r6.go): hand-written scripts first, then PRNG scripts of three families: (A) files whose bytes a text-minded reader might touch - raw string literals spanning lines under CR LF / lone CR / LF CR / mixed line ends (length, bytes, quoted form printed; compared with escaped spellings; a throw that depends on the length), lone CRs between tokens, trailing blanks, BOM, ^Z, no final line end; (B) the command started in a working directory other than the script's (script named by absolute path, ../proj/x, proj/x, a path with .., a symbolic link; the script's own directory as control) with scripts that load / read / stat / open / glob relative paths existing only next to the script, only in the working directory, in both or nowhere, loaded files loading again - the library driver runs in the same working directory; (C) failing scripts whose error text holds CR without LF, CR LF, LF CR (thrown strings, Go errors, import/load names, command-line arguments, raw literals with the bytes, Go panics) at top level / in functions / loops / catch blocks, and unreadable paths with such names. In this phase the diagnostic line must also contain the library's error text in the command's one-line form. " +
 					"An evaluation = one CLI run compared with the library run; non-trivial when the library printed something or returned an error; distinct = distinct (mode, source, args).",
 				Assumptions: []string{
 					"the library driver's environment (env.NewEnv, Define args []string, core.Import, blank import of packages) is 'an equally prepared environment'",
 					"Go flag conventions: flags precede positionals; after the file name every word is a script argument; flag-like words are not positional in -e mode (left out there)",
-					"the diagnostic line's text is not specified: any single non-blank line is accepted (its relation to the library's error text is only counted)",
+					"the diagnostic line's wording is not specified: any single non-blank line is accepted in phases fixed, gen and diag-env (its relation to the library's error text is only counted); one line = no line break inside, a carriage return counts as a line break like a line feed, the line may end in LF or CR LF",
+					"phase bytes-cwd-cr: 'reports what the library computes' is read as: the diagnostic line contains the text of the error vm.Execute returned, written the way the command documents (anko.go oneLine: LF as \\n, CR as \\r, everything else unchanged); what else the line says is not judged. Scripts of that phase never write to standard error, which is where the library driver reports its error text",
+					"the source of a script file is the file's bytes, unchanged (the library driver is given exactly the bytes written to the file); a relative path in a script means the process's working directory for the command as for vm.Execute (the library has no notion of a script file) - the library driver is run in the same working directory as the command",
 					"for an unreadable file both 'no output' and 'one diagnostic line' are accepted on stdout; stderr is never judged",
 					"error texts spanning several lines are excluded while c18PendingFix_multiLineDiagnostic is set (reported defect); library panics and interactive mode are outside the domain",
 					"'the bundled packages available' means importable with import(): a name that no scope defines is undefined for the command exactly when it is for vm.Execute in the library driver's environment, whatever the name is",
@@ -1428,6 +1489,7 @@ func init() {
 					{Name: "fixed", Cases: nf, Chunk: (nf + 15) / 16, TimeoutS: 900, NeedsAnko: true},
 					{Name: "gen", Cases: nGen, Chunk: chunk, TimeoutS: 1800, NeedsAnko: true},
 					{Name: "diag-env", Cases: nR5, Chunk: chunk, Jobs: 4, MemMB: 3072, TimeoutS: 1800, NeedsAnko: true},
+					{Name: "bytes-cwd-cr", Cases: nR6, Chunk: chunkR6, Jobs: 4, MemMB: 3072, TimeoutS: 1800, NeedsAnko: true},
 				},
 			}
 		},
@@ -1439,6 +1501,10 @@ func init() {
 			}
 			if c.Phase == "diag-env" {
 				c18RunR5(x, c)
+				return
+			}
+			if c.Phase == "bytes-cwd-cr" {
+				c18RunR6(x, c)
 				return
 			}
 			if c.Phase == "fixed" {
